@@ -13,7 +13,8 @@
 //!   calls   <name>:<cs>;..     every (name, flag) handed to use_keyspace         ('-' if none)
 //!   texts   <text>;..          distinct USE statement texts seen by the mock    ('-' if none)
 //!   stats   ok=<successful uses>,fr=<frames>,strict=<frames after a successful use>,cn=<connections>,nd=<nodes>,
-//!           slow=<requests abandoned after 3 s>
+//!           slow=<requests abandoned after 3 s>,op=<connections the mock accepted during the scenario>
+//! or, when the session could not be built because the machine is out of loopback ports:  skip-env <reason>
 use crate::{dec_name, enc_name};
 use scylla::client::PoolSize;
 use scylla::client::session::Session;
@@ -282,10 +283,33 @@ pub async fn run_scenario(sseed: u64, thorough: bool) -> String {
         sh.events.lock().unwrap().push(format!("C:{:x}:{}:0", 0xffffu64, enc_name(k)));
         b = b.use_keyspace(k, false);
     }
-    let session = match tokio::time::timeout(Duration::from_secs(20), b.build()).await {
-        Ok(Ok(s)) => Arc::new(s),
-        Ok(Err(e)) => return format!("error session {:?}", e),
-        Err(_) => return "error session-timeout".into(),
+    // The scenario can only be judged if the session comes up. Building it may fail for a reason that
+    // has nothing to do with the driver: the machine ran out of ephemeral ports on 127.0.0.1 (EADDRINUSE,
+    // os error 98; thousands of short-lived loopback connections in TIME-WAIT). That case - and only that
+    // case - is reported as `skip-env` (counted and capped by checks/c20.py), after three retries.
+    let mut attempt = 0;
+    let session = loop {
+        attempt += 1;
+        match tokio::time::timeout(Duration::from_secs(20), b.clone().build()).await {
+            Ok(Ok(s)) => break Arc::new(s),
+            Ok(Err(e)) => {
+                let msg = format!("{:?}", e);
+                if msg.contains("AddrInUse") {
+                    if attempt < 4 {
+                        tokio::time::sleep(Duration::from_millis(700 * attempt)).await;
+                        continue;
+                    }
+                    cluster.shutdown();
+                    return "skip-env session-build-EADDRINUSE".into();
+                }
+                cluster.shutdown();
+                return format!("error session {}", msg).replace(' ', "_");
+            }
+            Err(_) => {
+                cluster.shutdown();
+                return "error session-timeout".into();
+            }
+        }
     };
     if builder_ks.is_some() {
         sh.events.lock().unwrap().push(format!("R:{:x}:1", 0xffffu64));
@@ -364,6 +388,7 @@ pub async fn run_scenario(sseed: u64, thorough: bool) -> String {
         }
     }
     let conns = cluster.connections(None).len();
+    let opened = cluster.trace_snapshot().iter().filter(|e| matches!(e.ev, Ev::Open { .. })).count();
     let hang = cx.hang.lock().unwrap().clone();
     if hang.is_some() && std::env::var("C20_DEBUG").is_ok() {
         eprintln!("=== scenario {:x}: {:?}", sseed, hang);
@@ -414,7 +439,7 @@ pub async fn run_scenario(sseed: u64, thorough: bool) -> String {
     }
     let join = |v: Vec<String>| if v.is_empty() { "-".to_string() } else { v.join(";") };
     format!(
-        "none {} {} {} ok={},fr={},strict={},cn={},nd={},slow={}",
+        "none {} {} {} ok={},fr={},strict={},cn={},nd={},slow={},op={}",
         join(events),
         join(calls.iter().map(|(n, c)| format!("{}:{}", enc_name(n), *c as u8)).collect()),
         join(texts.iter().map(|t| enc_name(t)).collect()),
@@ -423,13 +448,16 @@ pub async fn run_scenario(sseed: u64, thorough: bool) -> String {
         strict,
         conns,
         nodes,
-        slow
+        slow,
+        opened
     )
 }
 
 fn run_many(seeds: Vec<u64>, thorough: bool, out: &mut Out) {
     let tag = if thorough { "t" } else { "q" };
-    let par: usize = std::env::var("C20_PAR").ok().and_then(|s| s.parse().ok()).unwrap_or(10);
+    // Loopback ports are a shared, slowly replenished resource (TIME-WAIT 60 s, ~28 k ephemeral ports,
+    // every client connection leaves from 127.0.0.1): keep the connection rate modest.
+    let par: usize = std::env::var("C20_PAR").ok().and_then(|s| s.parse().ok()).unwrap_or(if thorough { 4 } else { 8 });
     let rt = tokio::runtime::Builder::new_multi_thread().worker_threads(8).enable_all().build().unwrap();
     let results: Vec<(u64, String)> = rt.block_on(async move {
         use futures::stream::{self, StreamExt};
